@@ -55,6 +55,16 @@ def two(p: uint256, q: uint256) -> uint256:
     return (p << 128) ^ q
 
 @internal
+def first(q: uint256[4], r: uint256) -> uint256:
+    return (q[0] << 128) ^ r
+
+@internal
+def bumparr(d: uint256) -> uint256:
+    log B(v=self.arr[0])
+    self.arr[0] = self.arr[0] ^ d
+    return self.arr[0]
+
+@internal
 def pair(v: uint256) -> uint256[2]:
     log A(v=v)
     return [v, v + 1]
@@ -97,6 +107,7 @@ def family(quick=True):
     T["aug.state"] = _f("x: uint256, y: uint256", "uint256", "self.x = x\nself.x += self.bump(y)\nreturn self.x")
     # by value
     T["byvalue.arg-read-before-effect"] = _f("x: uint256, y: uint256", "uint256", "self.x = x % 100\nreturn self.two(self.x, self.bump(y % 100))")
+    T["byvalue.array-arg-read-before-effect"] = _f("x: uint256, y: uint256", "uint256", "self.arr[0] = x & 65535\nreturn self.first(self.arr, self.bumparr((y & 255) | 256))")
     T["byvalue.local-copy"] = _f("x: uint256, y: uint256", "uint256", "self.x = x\nt: uint256 = self.x\nself.bump(y)\nreturn t")
     T["byvalue.array-copy"] = _f("x: uint256", "uint256", "self.arr = [x, 1, 2, 3]\nt: uint256[4] = self.arr\nself.arr[0] = 77\nreturn t[0]")
     T["byvalue.binop-read-before-effect"] = _f("x: uint256, y: uint256", "uint256", "self.x = x % 100\nreturn (self.x << 128) ^ self.bump(y % 100)")
